@@ -76,10 +76,13 @@ def layoutLine (img : Image) : PyRes String :=
 
 def nthU (us : List UContainer) (k : Nat) : Option UContainer := us[k]?
 
-def repLine (rs : List Spec.AhabRom.ContainerRep) : String :=
+def repLine (bin : List UInt8) (rs : List Spec.AhabRom.ContainerRep) : String :=
   ";".intercalate (rs.map (fun r =>
     s!"k={r.index} base={r.base} len={r.length} flags={r.flags} sw={r.swVersion} fuse={r.fuseVersion} sbo={r.sbOffset} srk={r.srkOff} sig={r.sigOff} cert={r.certOff} blob={r.blobOff} sblen={r.sbLength} imgs=" ++
       ",".intercalate (r.images.map (fun i => s!"{i.offset}:{i.size}:{i.flags}:{if i.encrypted then 1 else 0}")) ++
+      " extra=" ++ ",".intercalate ((List.range r.images.length).map (fun i =>
+        let x := Spec.AhabRom.entryExtra bin (r.base + 16 + 128 * i)
+        s!"{x.1}:{x.2.1}:{x.2.2}")) ++
       (match r.sig with
        | none => " unsigned"
        | some s => s!" signed={s.signedLen} table={s.srkTableOff}:{s.srkTableLen} rec={s.srkRecOff}:{s.srkRecLen} used={s.usedSrk} sigdata={s.sigOff}:{s.sigLen} srkhash={toHex s.srkHash}")))
@@ -149,7 +152,7 @@ def step (st : St) : List String → St × String
         | .v1 => Spec.AhabRom.paramsV1 (pN maxC) (pN maxI)
         | .v2 => Spec.AhabRom.paramsV2 (pN maxC) (pN maxI)
       match Spec.AhabRom.ahabCheck crypto p (pH bin) deks with
-      | .ok rs => (st, "ok:" ++ repLine rs)
+      | .ok rs => (st, "ok:" ++ repLine (pH bin) rs)
       | .error e => (st, "fail:" ++ e)
     | _, _ => (st, "bad-op")
   -- ------------------------------------------------------------ small functions
